@@ -54,6 +54,8 @@ fn classes(ir: &[Elem], obs: &mut Obs) {
             Val::U64(x) if x.iter().any(|v| *v > 1 << 53) => obs.class("integer>2^53"),
             Val::I64(x) if x.iter().any(|v| v.unsigned_abs() > 1 << 53) => obs.class("integer>2^53"),
             Val::Empty => obs.class("empty-value"),
+            Val::F64(x) if e.vr == "DS" && x.iter().any(|b| format!("{}", f64::from_bits(*b)).len() > 16) => obs.class("DS-double-longer-than-16-chars"),
+            Val::Strs(x) if (e.vr == "DS" || e.vr == "IS") && x.len() >= 2 && x.iter().any(|s| s.is_empty()) => obs.class("IS/DS-with-empty-component"),
             _ => {}
         },
         0,
@@ -235,6 +237,8 @@ fn json_scalar() -> BoxedStrategy<String> {
         any::<i64>().prop_map(|n| n.to_string()),
         any::<f64>().prop_map(|f| if f.is_finite() { format!("{f}") } else { "1e999".into() }),
         "[ -~]{0,8}".prop_map(|s| serde_json::to_string(&s).unwrap()),
+        // longer texts with multi-byte characters at every alignment (length limits of the VRs are 16, 64, ... bytes)
+        "[0-9a-zé€𝄞.^=\\\\ -]{9,40}".prop_map(|s| serde_json::to_string(&s).unwrap()),
         Just("\"NaN\"".to_string()),
         Just("\"AAEC\"".to_string()),
         Just("\"(0010,0010)\"".to_string()),
@@ -299,8 +303,57 @@ fn check_any_json(c: &JsonCase, obs: &mut Obs) {
     }
 }
 
+/// JSON-specific variation of G-DS: decimal strings held as arbitrary finite doubles (their shortest decimal text may
+/// be longer than 16 characters) and multi-valued IS/DS text with an empty component (PS3.5 6.4: a value of a
+/// multi-valued element may be empty; Annex F.2.5 writes it as null).
+fn vary_numbers(elems: &mut [Elem], pool: &[f64], blank: &[u8], k: &mut usize) {
+    for e in elems.iter_mut() {
+        *k += 1;
+        match &mut e.v {
+            Val::F64(x) if e.vr == "DS" && blank[*k % blank.len()] & 1 == 1 => {
+                for (i, b) in x.iter_mut().enumerate() {
+                    *b = pool[(*k + i) % pool.len()].to_bits();
+                }
+            }
+            Val::Strs(x) if (e.vr == "DS" || e.vr == "IS") && x.len() >= 2 && blank[*k % blank.len()] & 2 == 2 => {
+                let i = (blank[*k % blank.len()] as usize >> 2) % x.len();
+                x[i] = String::new();
+                if x.iter().all(|s| s.is_empty()) {
+                    // an all-empty text is indistinguishable from fewer values after padding removal: keep one number
+                    x[0] = "7".into();
+                }
+                if x.last().map(|s| s.is_empty()).unwrap_or(false) {
+                    // trailing empty component: indistinguishable from padding once trimmed by the writers' callers; keep it inner
+                    x.push("1".into());
+                }
+            }
+            Val::Seq { items, .. } => {
+                for it in items.iter_mut() {
+                    vary_numbers(&mut it.elems, pool, blank, k);
+                }
+            }
+            _ => {}
+        }
+    }
+}
+
 fn ds_strategy() -> BoxedStrategy<Case> {
-    gen::dataset(DsCfg { max_depth: 3, max_top: 8, pixel_seq: false }).prop_map(|ds| Case { ds }).boxed()
+    let dbl = prop_oneof![
+        4 => any::<f64>().prop_map(|f| if f.is_finite() { f } else { 0.1 + 0.2 }),
+        2 => (any::<i32>(), 1u32..1000).prop_map(|(a, b)| a as f64 / b as f64),
+        1 => proptest::sample::select(vec![0.30000000000000004f64, 1.0 / 3.0, -2.0 / 3.0, 3.3333333333333334e-8, 1e22, 1e-7, f64::MAX, f64::MIN_POSITIVE, 5e-324, 123456789.12345679]),
+    ];
+    (
+        gen::dataset(DsCfg { max_depth: 3, max_top: 8, pixel_seq: false }),
+        proptest::collection::vec(dbl, 4),
+        proptest::collection::vec(any::<u8>(), 5),
+    )
+        .prop_map(|(mut ds, pool, blank)| {
+            let mut k = 0usize;
+            vary_numbers(&mut ds, &pool, &blank, &mut k);
+            Case { ds }
+        })
+        .boxed()
 }
 
 pub fn run_c23(ctx: &Ctx) {
